@@ -395,7 +395,7 @@ pub fn run(ctx: &Ctx) {
     }
 
     // (a)-(d) families from random trees
-    let n = ctx.tier.pick(12_000, 400_000);
+    let n = ctx.tier.pick(30_000, 500_000);
     ctx.par_proptest(
         "mutated-valid-encodings",
         n,
@@ -404,7 +404,7 @@ pub fn run(ctx: &Ctx) {
     );
 
     // (e) random bytes against random shapes
-    let n = ctx.tier.pick(150_000, 5_000_000);
+    let n = ctx.tier.pick(500_000, 8_000_000);
     ctx.par_proptest(
         "random-bytes",
         n,
